@@ -320,6 +320,7 @@ def targets(ctx):
     from . import _seq
 
     return [
+        __import__("vf.props._inherit", fromlist=["target"]).target(__import__("vf.props._corpus", fromlist=["corpus"]).corpus()),
         Target("identifiers_exhaustive", batch_ev, cases=exhaustive_cases, exhaustive=True, rule=f"all legal identifiers of length <= {max_len} over {ALPHABET!r}"),
         Target("keywords_builtins_realworld", batch_ev, cases=corpus_cases, exhaustive=True, shard_cases=False),
         Target("sibling_field_pairs", pair_ev, cases=pair_cases, exhaustive=True,
